@@ -241,13 +241,13 @@ func (p *Program) deferredUnlocks(d *ssa.Defer) []string {
 // field access index
 
 type fieldAccess struct {
-	Fn     *ssa.Function
-	Instr  ssa.Instruction
-	FA     *ssa.FieldAddr // nil for value-field reads (ssa.Field)
-	Owner  string         // struct type name
-	Field  string
-	Kind   string // "read", "write", "addr" (address used otherwise), "call:<callee>" (address passed as receiver/arg)
-	Base   ssa.Value
+	Fn    *ssa.Function
+	Instr ssa.Instruction
+	FA    *ssa.FieldAddr // nil for value-field reads (ssa.Field)
+	Owner string         // struct type name
+	Field string
+	Kind  string // "read", "write", "addr" (address used otherwise), "call:<callee>" (address passed as receiver/arg)
+	Base  ssa.Value
 }
 
 // fieldAccesses lists every access to a field of the named struct types in the analysed package.
